@@ -171,6 +171,13 @@ func workerMain(args []string) int {
 			binary.LittleEndian.PutUint64(jb[:], uint64(i))
 			jf.WriteAt(jb[:], 0)
 		}
+		if s := os.Getenv("DIGSIM_TEST_KILL_AT"); s != "" && s == fmt.Sprint(i) {
+			// self-test of the harness: this worker is lost to its environment
+			if p, err := os.FindProcess(os.Getpid()); err == nil {
+				p.Kill()
+				time.Sleep(time.Second)
+			}
+		}
 		h := cd.Gen(*seed, i, *thorough)
 		before := snapshotCatIDs()
 		o := cd.Eval(h)
